@@ -284,6 +284,45 @@ def run(tier):
                                                                "being rewritten by request 0 (truncated, not yet written)", i,
                                                                d["detail"][i]["response_head_latin1"] or "EMPTY reply"),
                            "schedule": j["sched"], "gate_trace": d["gate_trace"], "requests": d["detail"], "job": j}, tag=tag)
+    # ---- two requests for the same ZIP archive, one rebuilding the stored index while the other looks things up ----
+    zbase = zip_job(rng, activated=False, tier=tier)
+    zsel = {}
+    for key in zbase["protokeys"]:
+        for s_, rq_ in zbase["protokeys"][key].items():
+            zsel["%s %s" % (key, s_)] = rq_
+    znames = sorted(zsel)
+    zjobs = []
+    for j in range(0, 9):
+        a_, b_ = rng.choice(znames), rng.choice(znames)
+        # A stores its index; B gets j steps into recreating it; A runs on; B finishes
+        zjobs.append({"op": "c11_zip_sched", "tree": zbase["tree"], "config": zbase["config"], "requests": zsel,
+                      "names": [a_, b_], "sched": [0] * 9 + [1] * j + [0] * 40 + [1] * 40})
+    for _ in range(8 if tier == "thorough" else 4):
+        nn = rng.choice([2, 3])
+        zjobs.append({"op": "c11_zip_sched", "tree": zbase["tree"], "config": zbase["config"], "requests": zsel,
+                      "names": [rng.choice(znames) for _ in range(nn)],
+                      "sched": [rng.randrange(nn) for _ in range(rng.randrange(10, 40))] + [i for i in range(nn) for _ in range(40)]})
+    zsres = impl_run_parallel(zjobs, chunks=6)
+    zs = {"schedules": len(zjobs), "requests": sum(len(j["names"]) for j in zjobs), "bad_answers": 0, "gates_passed": 0}
+    seen_zs = set()
+    for j, r in zip(zjobs, zsres):
+        if not r["ok"]:
+            raise RuntimeError(r["err"] + "\n" + r.get("tb", ""))
+        d = r["res"]
+        zs["gates_passed"] += len(d["gate_trace"])
+        chk.count(("zsched", tuple(j["names"]), tuple(j["sched"][:60])), nontrivial=True)
+        for i, o in enumerate(d["obs"]):
+            if o == "ok":
+                continue
+            zs["bad_answers"] += 1
+            found = True
+            tag = "zip-index-concurrent:" + {"empty": "empty-reply", "wrong": "wrong-answer", "hang": "hang"}[o]
+            if tag in seen_zs:
+                continue
+            seen_zs.add(tag)
+            chk.violation({"what": "%d requests for the same ZIP archive in flight: %s does not get the answer it gets alone (%s)"
+                                   % (len(j["names"]), j["names"][i], o), "schedule": j["sched"][:80], "gate_trace": d["gate_trace"],
+                           "requests": d["detail"], "job": j}, tag=tag)
     zres = res[-1]["res"]
     chk.count(("zip", zres["tested"]), nontrivial=False, n=zres["tested"])   # never re-read: trivial by construction
     if zres["nfails"]:
@@ -300,6 +339,10 @@ def run(tier):
                              "errors": [e for e in (err,) if e], "implementation_behaves_as_model_variant": behaves,
                              "mismatches_against_pinned_variant": len(mism_p)}
     cov["concurrent_readers"] = conc
+    cov["zip_index_concurrent"] = dict(zs, note="requests for the same archive paused at every access to the stored index (shelve.open, "
+                                              "each record written, each record read from a stored index); 9 schedules in which the second "
+                                              "request is 0..8 steps into recreating the index while the first continues, plus random ones; "
+                                              "answers compared with the sequential ones")
     cov["zip_index_cache"] = {
         "files": zres["files"], "requests": zres["tested"], "failures_as_written": zres["nfails"],
         "per_variant": zres["per_variant"],
@@ -356,6 +399,15 @@ def replay(path):
     if job.get("op") == "c14_sched":
         import c14
         return c14.replay(path)
+    if job.get("op") == "c11_zip_sched":
+        r = impl_run([job])[0]
+        if not r["ok"]:
+            print(r["err"])
+            return 2
+        print(r["res"]["obs"], r["res"]["gate_trace"])
+        bad = [o for o in r["res"]["obs"] if o != "ok"]
+        print("REPRODUCED" if bad else "not reproduced")
+        return 1 if bad else 0
     r = impl_run([job])[0]
     if not r["ok"]:
         print(r["err"])
